@@ -540,9 +540,23 @@ class Body:
                 alts.append(self.term_call(d[1]))
         return alts
 
+    _PRIM_CMP = re.compile(r"^<(&*)(f64|f32|u8|u16|u32|u64|u128|usize|i8|i16|i32|i64|i128|isize|bool|char) as std::cmp::Partial(Ord|Eq)(<[^>]*>)?>::(lt|le|gt|ge|eq|ne)$")
+
     def term_call(self, bi):
         t = self.blocks[bi]["term"]
         args = tuple(self.term_operand(a) for a in t["args"])
+        # comparing two references to primitive values (`a >= b` with a, b: &f64) goes through PartialOrd on the reference type; it is the comparison of the values
+        m = self._PRIM_CMP.match(t.get("callee_args") or "")
+        if m and len(args) == 2:
+            def val(x):
+                for _ in range(len(m.group(1)) + 1):
+                    if isinstance(x, tuple) and x and x[0] == "ref":
+                        x = x[1]
+                    else:
+                        x = ("deref", x)
+                return x
+            op = {"lt": "Lt", "le": "Le", "gt": "Gt", "ge": "Ge", "eq": "Eq", "ne": "Ne"}[m.group(5)]
+            return ("binop", op, val(args[0]), val(args[1]))
         return ("call", callee_name(t), args, bi)
 
     def term_place(self, pl):
